@@ -2,35 +2,41 @@ import GopatchModel.MetaP
 namespace Gopatch.C19
 open Gopatch.Sec
 
-def validByte (i : Nat) (b : UInt8) : Bool := isLetterB b || b == 95 || (i > 0 && isDigitB b)
-
-/-- `validateChangeName` reports the first invalid byte of the name, at its index -/
-theorem validateName_spec : ∀ (name : Bytes) (i j : Nat) (ch : UInt8),
-    validateName i name = some (j, ch) →
-      i ≤ j ∧ name[j - i]? = some ch ∧ validByte j ch = false ∧
-      ∀ k, k < j - i → ∃ b, name[k]? = some b ∧ validByte (i + k) b = true
-  | [], i, j, ch, h => by simp [validateName] at h
-  | b :: bs, i, j, ch, h => by
+/-- `validateChangeName` reports the byte index of the first rune that may not stand in a change name, and the
+byte found there: the reported index lies in the name, the byte at it is the reported one, and the rune that
+starts there is not a valid one (letters and digits outside ASCII according to the Unicode parameter `u`) -/
+theorem validateName_spec (u : Uni) : ∀ (fuel : Nat) (name : Bytes) (i j : Nat) (ch : UInt8),
+    validateName u fuel i name = some (j, ch) →
+      i ≤ j ∧ name[j - i]? = some ch ∧ validRune u j (decodeRune (name.drop (j - i))).1 = false
+  | 0, name, i, j, ch, h => by simp [validateName] at h
+  | fuel + 1, [], i, j, ch, h => by simp [validateName] at h
+  | fuel + 1, b :: bs, i, j, ch, h => by
       unfold validateName at h
-      by_cases hv : (isLetterB b || b == 95 || (decide (i > 0) && isDigitB b)) = true
+      simp only at h
+      by_cases hv : validRune u i (decodeRune (b :: bs)).1 = true
       · rw [if_pos hv] at h
-        obtain ⟨h1, h2, h3, h4⟩ := validateName_spec bs (i + 1) j ch h
-        refine ⟨by omega, ?_, h3, ?_⟩
-        · have : j - i = (j - (i + 1)) + 1 := by omega
-          rw [this]; simpa using h2
-        · intro k hk
-          cases k with
-          | zero => exact ⟨b, by simp, by simpa [validByte] using hv⟩
-          | succ k =>
-            obtain ⟨b', hb1, hb2⟩ := h4 k (by omega)
-            refine ⟨b', by simpa using hb1, ?_⟩
-            have : i + (k + 1) = i + 1 + k := by omega
-            rw [this]; exact hb2
+        obtain ⟨h1, h2, h3⟩ := validateName_spec u fuel _ _ j ch h
+        have hji : j - i = (decodeRune (b :: bs)).2 + (j - (i + (decodeRune (b :: bs)).2)) := by omega
+        refine ⟨by omega, ?_, ?_⟩
+        · rw [List.getElem?_drop] at h2
+          rw [hji]; exact h2
+        · rw [List.drop_drop] at h3
+          rw [hji]
+          have : (decodeRune (b :: bs)).2 + (j - (i + (decodeRune (b :: bs)).2)) = (j - (i + (decodeRune (b :: bs)).2)) + (decodeRune (b :: bs)).2 := by omega
+          rw [this] at *
+          first | exact h3 | (rw [Nat.add_comm]; exact h3)
       · rw [if_neg hv] at h
         simp only [Option.some.injEq, Prod.mk.injEq] at h
         obtain ⟨rfl, rfl⟩ := h
-        refine ⟨Nat.le_refl _, by simp, by simpa [validByte] using hv, ?_⟩
-        intro k hk; omega
+        refine ⟨Nat.le_refl _, by simp, ?_⟩
+        simpa using hv
+
+/-- ASCII names: letters, '_' and (not first) digits are valid whatever the Unicode parameter says -/
+example : validateName Uni.ascii 5 0 [110, 97, 33, 109, 101] = some (2, 33) := by decide
+
+/-- a letter outside ASCII in front of the offending character counts by its bytes: `gö-x` is reported at byte 3 -/
+example : validateName { letter := fun cp => cp == 246, digit := fun _ => false } 5 0 [103, 195, 182, 45, 120] = some (3, 45) := by
+  decide
 
 theorem prefix_getElem? {α} {xs ys : List α} (hp : xs <+: ys) (i : Nat) (c : α)
     (h : xs[i]? = some c) : ys[i]? = some c := by
@@ -49,8 +55,8 @@ theorem trimRight_prefix (l : Bytes) (p : UInt8 → Bool) : (l.reverse.dropWhile
 /-- **Header diagnostics point at the offending character.** When the splitter rejects a
 change name, the reported offset lies in that header line and the byte there is the reported
 character, however many spaces follow the leading '@'. -/
-theorem badName_points_at_char (l : Line) (o : Nat) (ch : UInt8) (nm : Bytes)
-    (h : readName l = (nm, some ⟨o, .badName ch⟩)) :
+theorem badName_points_at_char (u : Uni) (l : Line) (o : Nat) (ch : UInt8) (nm : Bytes)
+    (h : readName u l = (nm, some ⟨o, .badName ch⟩)) :
     l.off ≤ o ∧ l.text[o - l.off]? = some ch := by
   unfold readName at h
   by_cases h1 : l.text = [atB, atB]
@@ -70,7 +76,7 @@ theorem badName_points_at_char (l : Line) (o : Nat) (ch : UInt8) (nm : Bytes)
           simp only [Prod.mk.injEq, Option.some.injEq, Err.mk.injEq, ErrKind.badName.injEq] at h
           obtain ⟨_, ho, hc⟩ := h
           subst hc
-          obtain ⟨_, hget, _, _⟩ := validateName_spec _ 0 i c hv
+          obtain ⟨_, hget, _⟩ := validateName_spec u _ _ 0 i c hv
           simp only [Nat.sub_zero] at hget
           refine ⟨by omega, ?_⟩
           have hg2 := prefix_getElem? (trimRight_prefix _ isSpaceB) i c hget
@@ -85,8 +91,8 @@ theorem badName_points_at_char (l : Line) (o : Nat) (ch : UInt8) (nm : Bytes)
       simp at h
 
 /-- text where a header is expected is reported at the first column of that line -/
-theorem badHeader_at_line_start (l : Line) (o : Nat) (nm : Bytes)
-    (h : readName l = (nm, some ⟨o, .badHeader⟩)) : o = l.off := by
+theorem badHeader_at_line_start (u : Uni) (l : Line) (o : Nat) (nm : Bytes)
+    (h : readName u l = (nm, some ⟨o, .badHeader⟩)) : o = l.off := by
   unfold readName at h
   by_cases h1 : l.text = [atB, atB]
   · simp [h1] at h
